@@ -9,6 +9,7 @@ import (
 	"encoding/json"
 	"fmt"
 	"net/http"
+	"net/http/httptest"
 	"os"
 	"path"
 	"sort"
@@ -596,6 +597,8 @@ func RunIngressProgram(p *Program) *Result {
 			w.ReloadStep(s.NewSpec)
 		case "race":
 			w.RaceStep(s)
+		case "flood":
+			w.FloodStep(s)
 		default:
 			w.Res.Trouble = "ingress world: unknown op " + s.Op
 		}
@@ -911,3 +914,43 @@ func (w *IngressWorld) RaceStep(s Step) {
 }
 
 func sortInts(a []int) { sort.Ints(a) }
+
+// FloodStep: s.Batch requests like s.Req, each with a nonce of its own and a
+// signature that does not verify - other people's traffic between an original
+// and its replay, in volume. None of them may be accepted; what they do to the
+// replay cache shows when the steps that follow resend captured requests.
+func (w *IngressWorld) FloodStep(s Step) {
+	if s.Req == nil || s.Req.Sign == nil {
+		w.Res.Trouble = "flood: needs a signed request"
+		return
+	}
+	counts := map[int]int{}
+	for i := 0; i < s.Batch; i++ {
+		rs := *s.Req
+		sg := *s.Req.Sign
+		sg.Replay = 0
+		sg.Nonce = fmt.Sprintf("%s-flood-%d", sg.Nonce, i)
+		sg.Mutate = "sig_bit"
+		rs.Sign = &sg
+		nsent := len(w.sent)
+		req, err := w.buildRequest(&rs)
+		w.sent = w.sent[:nsent] // not a captured request
+		if err != nil {
+			w.Res.Trouble = "flood: " + err.Error()
+			return
+		}
+		// served on this goroutine: nothing is interleaved with a flood, and a task
+		// per request costs more than the request
+		rec := httptest.NewRecorder()
+		w.Ingress.ServeHTTP(rec, req)
+		counts[rec.Code]++
+		if rec.Code == http.StatusAccepted {
+			w.add("C08.unauth.accepted", "C08", "ingress/flood", "request %d of a flood of requests with invalid signatures was accepted", i)
+			w.adoptUnexpected(w.Clock.Peek())
+			return
+		}
+	}
+	w.Res.Ops++
+	w.Res.probe("ingress.flood")
+	w.Res.logf("flood of %d requests with fresh nonces and invalid signatures -> %v", s.Batch, counts)
+}
